@@ -33,6 +33,10 @@ def specHop : List Bytes :=
 def framing : List Bytes :=
   [[67,111,110,116,101,110,116,45,76,101,110,103,116,104], [84,114,97,110,115,102,101,114,45,69,110,99,111,100,105,110,103]]
 
+/-- fields a standard-library stage may supply when the client sent none -/
+def defaults : List Bytes :=
+  [[85,115,101,114,45,65,103,101,110,116], [65,99,99,101,112,116,45,69,110,99,111,100,105,110,103], [88,45,70,111,114,119,97,114,100,101,100,45,70,111,114]]  -- User-Agent, Accept-Encoding, X-Forwarded-For
+
 /-- a standard-library stage: keeps method, target, Host and body; keeps the values of every
     field that is neither hop-by-hop (by name or by a `Connection` option of the request) nor framing; adds fields only where there were none -/
 structure StdReqSpec (stage : ReqM → ReqM) : Prop where
@@ -44,6 +48,7 @@ structure StdReqSpec (stage : ReqM → ReqM) : Prop where
       k ∉ Hdr.connDrops q.hdr →          -- a field named by a `Connection` option is hop-by-hop for this request
       Hdr.values (stage q).hdr k = Hdr.values q.hdr k
   drops_hop : ∀ q k, Hdr.values q.hdr k = [] → server_isHopByHopHeader k = true → Hdr.values (stage q).hdr k = []
+  adds_only_defaults : ∀ q k, Hdr.values q.hdr k = [] → k ∉ defaults → k ∉ framing → Hdr.values (stage q).hdr k = []
   wf : ∀ q, RespPath.WF q.hdr → RespPath.WF (stage q).hdr
 
 structure AgentCfg where
